@@ -44,7 +44,7 @@ def jobs(tier, seed):
     rng = random.Random(seed * 7919 + 12)
     alphabet = [-2, -1, 1, 2]
     out = []
-    n = 150 if tier == "quick" else 2000
+    n = 300 if tier == "quick" else 12000
     ifaces = [(["x"], ["y"]), (["x", "u"], ["y"]), (["x"], ["y", "z"])] + ([(["x", "u"], ["y", "z", "w"])] if tier == "thorough" else [])
     for i in range(n):
         ins, outs = ifaces[i % len(ifaces)]
